@@ -21,7 +21,7 @@ def main():
                 ['secretstore/zz_verif_env.go', 'secretstore/zz_verif_rand.go', 'C02/zz_verif_c02.go'],
                 installers=[crypto.install, crypto.install_proto, install], init_pkgs=[MOD + '/pkg/errcode'], prelude_pkgname='secretstore')
     P = MOD + '/pkg/secretstore.'
-    chk.load([P + 'VerifC02Bounded', P + 'VerifC02Witness'])
+    chk.load([P + 'VerifC02Bounded', P + 'VerifC02TwoSenders', P + 'VerifC02Witness'])
     cfg = {'timeout_ms': 60000, 'unwind': 16, 'dec_as_term': True}
     jobs = []
     if t == 'quick':
@@ -31,6 +31,8 @@ def main():
     for (w, pre, n, L) in grid:
         for rereg in (99, 1):
             jobs.append(Job(P + 'VerifC02Bounded', (w, pre, n, L, rereg), cfg=cfg, max_paths=100000))
+    for (w, n, L) in ([(1, 2, 3)] if t == 'quick' else [(1, 2, 3), (2, 2, 4), (1, 3, 4)]):
+        jobs.append(Job(P + 'VerifC02TwoSenders', (w, n, L), cfg=cfg, max_paths=100000))
     jobs.append(Job(P + 'VerifC02Witness', (), witness=True, cfg=cfg))
     res = chk.run_jobs(jobs)
     finish(chk, res, t,
